@@ -20,6 +20,7 @@
    Dictionaries live in a heap of cells, so sharing between partners and between a copy and its source is expressible.
    The file keeps, per (workspace, uid), the last stored JSON (nested dicts by value).                              *)
 From GV Require Import Prelude.Base.
+From GVgen Require Import C20_Flags.   (* tipper_units_broken: read from the source under test on every run *)
 
 Inductive family := FEM | FTEM | FLarge | FLargeTEM | FTipper | FDC.
 Inductive role := RA | RB.      (* RA: receivers / potential electrodes ; RB: transmitters / base stations / current electrodes *)
@@ -385,7 +386,8 @@ Definition step (s : st) (o : op) : res st :=
   | OUnit a z =>
       match at_pos s a with
       | Some e => match fam e with
-                  | FTipper => Err EAttribute          (* TipperSurvey.default_units reads a name-mangled attribute that does not exist *)
+                  | FTipper => if tipper_units_broken then Err EAttribute   (* TipperSurvey.default_units reads a name-mangled attribute that does not exist *)
+                               else Ok (em_edit s e 10 (VZ z))
                   | FDC => Err EBadOp
                   | _ => Ok (em_edit s e 10 (VZ z))
                   end
